@@ -187,18 +187,219 @@ impl C02 {
     }
 }
 
+
+/// constrained random simulation in the reference simulator R3: the smallest step (<= k) at which some bad state
+/// held on a path whose constraints held at every step so far. One-sided: `None` says nothing.
+/// Returns (first bad step, paths completed or ended in a bad state, steps simulated).
+pub fn sim_first_bad(ctx: &Context, sys: &TransitionSystem, rng: &mut Rng, k: usize, runs: usize, node_budget: u64) -> (Option<usize>, u64, u64) {
+    use crate::refsem::bv::Val;
+    use crate::refsem::sim::RefSim;
+    use crate::wl::expr::random_env;
+    let mut all_syms: Vec<patronus::expr::ExprRef> = sys.states.iter().map(|s| s.symbol).collect();
+    all_syms.extend(sys.inputs.iter().copied());
+    let mut roots: Vec<patronus::expr::ExprRef> = sys.constraints.clone();
+    roots.extend(sys.bad_states.iter().copied());
+    let nodes = r2::post_order(ctx, &crate::wl::sys::all_roots(sys)).len() as u64;
+    let nc = sys.constraints.len();
+    let truth = |v: &Val| matches!(v, Val::B(b) if b.is_true());
+    let (mut best, mut paths, mut steps, mut spent): (Option<usize>, u64, u64, u64) = (None, 0, 0, 0);
+    for _ in 0..runs {
+        let mut sim = RefSim::new(ctx, sys);
+        let upto = best.map(|b| b.saturating_sub(1)).unwrap_or(k);
+        if best == Some(0) {
+            break;
+        }
+        let mut step = 0usize;
+        'path: loop {
+            let mut found = false;
+            for _try in 0..12 {
+                if spent > node_budget {
+                    return (best, paths, steps);
+                }
+                spent += nodes;
+                if step == 0 {
+                    let env = random_env(rng, ctx, &all_syms);
+                    if sim.init(|s| env[&s].clone()).is_err() {
+                        break 'path;
+                    }
+                } else {
+                    let env = random_env(rng, ctx, &sys.inputs);
+                    for i in &sys.inputs {
+                        sim.set(*i, env[i].clone());
+                    }
+                }
+                let Ok(vals) = sim.get_many(&roots) else { break 'path };
+                if vals[..nc].iter().all(truth) {
+                    found = true;
+                    if vals[nc..].iter().any(truth) {
+                        best = Some(step);
+                        paths += 1;
+                        break 'path;
+                    }
+                    break;
+                }
+            }
+            if !found {
+                break 'path;
+            }
+            steps += 1;
+            if step >= upto {
+                paths += 1;
+                break 'path;
+            }
+            spent += nodes;
+            if sim.step().is_err() {
+                break 'path;
+            }
+            step += 1;
+        }
+    }
+    (best, paths, steps)
+}
+
+impl C02 {
+    /// the btor2 designs shipped with the repository: the library (two configurations) and the shipped tool must
+    /// agree on the verdict *and* on the depth of the first failure (it is determined by the system), and must not
+    /// contradict a bad state that constrained random simulation in the reference simulator actually reached
+    fn corpus_case(&self, sh: &mut Shard, rng: &mut Rng, n: usize) {
+        let files = super::c11::corpus_files();
+        let Some(path) = files.get(n) else { return };
+        let Ok(text) = std::fs::read_to_string(path) else { return };
+        let name = util::short_path(&path.to_string_lossy());
+        if text.len() > sh.tier.pick(6_000, 100_000) || !text.lines().any(|l| l.split_whitespace().nth(1) == Some("bad")) {
+            sh.count("corpus_files_without_bad_state_or_too_large", 1);
+            return;
+        }
+        let mut ctx = Context::default();
+        let Ok(Some(sys)) = util::catch(|| patronus::btor2::parse_str(&mut ctx, &text, Some("corpus"))) else {
+            sh.count("corpus_files_not_parsed", 1);
+            return;
+        };
+        sh.count("corpus_systems", 1);
+        let k = sh.tier.pick(12u64, 30u64);
+        let (sim_bad, paths, steps) = sim_first_bad(&ctx, &sys, rng, k as usize, sh.tier.pick(40, 400), sh.tier.pick(3_000_000, 60_000_000));
+        sh.count("corpus_simulated_paths", paths);
+        sh.count("corpus_simulated_steps", steps);
+        if sim_bad.is_some() {
+            sh.count("corpus_systems_where_simulation_reached_a_bad_state", 1);
+        }
+        let mut simp = sys.clone();
+        if let Err(p) = util::catch(|| simplify_expressions(&mut ctx, &mut simp)) {
+            sh.violation(format!("C02|corpus|simplify-panic|{}", p.loc()), format!("{} ({name})", p.msg), json!({"file": name}));
+            return;
+        }
+        set_env("REFSOLVER_RLIMIT", sh.tier.pick("4000000", "30000000"));
+        // (configuration, verdict, depth of the failure)
+        let mut seen: Vec<(String, &'static str, Option<usize>)> = vec![];
+        let p1 = *rng.pick(&PERSONAS);
+        let p2 = *rng.pick(&PERSONAS);
+        for (persona, individually, simplified) in [(p1, false, false), (p2, true, true)] {
+            let cfgm = McCfg { persona, individually, check_constraints: false, k_max: k, solver_seed: rng.next() % 100_000, diversify: 0, core_mode: "minimal" };
+            let s = if simplified { &simp } else { &sys };
+            let run = run_bmc(&mut ctx, s, &cfgm, &sh.workdir.clone(), &format!("c02c_{}", sh.cur.n));
+            sh.count("corpus_bmc_runs", 1);
+            let cfg_txt = format!("library persona={persona} individually={individually} simplified={simplified} k={k}");
+            match &run.verdict {
+                Verdict::Success => seen.push((cfg_txt, "success", None)),
+                Verdict::Fail(w) => seen.push((cfg_txt, "fail", Some(w.inputs.len().saturating_sub(1)))),
+                other => {
+                    if budget_exceeded(other) {
+                        sh.count("corpus_runs_over_the_backend_effort_bound", 1);
+                    } else if first_rejection(&read_log(&run.log)).map(|r| r.1.starts_with("persona")).unwrap_or(false) {
+                        sh.count("corpus_runs_without_verdict_known_persona_limit", 1);
+                    } else {
+                        let cause = no_verdict_cause(&run);
+                        sh.violation(format!("C02|corpus|no-verdict|{cause}"), format!("bmc returned {} instead of a verdict on {name} ({cfg_txt})\n{:?}", other.name(), other), json!({"file": name}));
+                        unset_env("REFSOLVER_RLIMIT");
+                        return;
+                    }
+                }
+            }
+            let _ = std::fs::remove_file(&run.replay);
+            let _ = std::fs::remove_file(&run.log);
+        }
+        // the shipped tool on the file itself (reads, simplifies unless told not to, checks the constraints)
+        {
+            let persona = *rng.pick(&["bitwuzla", "z3", "cvc5"]);
+            let skip = rng.flip();
+            let log = sh.workdir.join(format!("c02cli_{}.log", sh.cur.n));
+            let _ = std::fs::remove_file(&log);
+            ensure_z3_server(&sh.workdir.clone());
+            set_env("REFSOLVER_LOG", log.to_str().unwrap());
+            set_env("REFSOLVER_SEED", "1");
+            set_env("REFSOLVER_DIVERSIFY", "0");
+            let mut cmd = std::process::Command::new(MC_BIN);
+            cmd.arg("--solver").arg(persona).arg("--engine").arg("bmc").arg("--kmax").arg(k.to_string());
+            if skip {
+                cmd.arg("--skip-simplify");
+            }
+            cmd.arg(path).current_dir(&sh.workdir);
+            if let Ok(out) = cmd.output() {
+                sh.count("corpus_cli_runs", 1);
+                let stdout = String::from_utf8_lossy(&out.stdout).to_string();
+                let stderr = String::from_utf8_lossy(&out.stderr).to_string();
+                let cfg_txt = format!("mc --solver {persona} --engine bmc --kmax {k}{}", if skip { " --skip-simplify" } else { "" });
+                let first = stdout.lines().find(|l| *l == "sat" || *l == "unsat" || *l == "unknown").unwrap_or("");
+                match (out.status.code(), first) {
+                    (Some(0), "unsat") => seen.push((cfg_txt, "success", None)),
+                    (Some(0), "sat") => {
+                        let depth = stdout.lines().filter_map(|l| l.strip_prefix('@').and_then(|x| x.trim().parse::<usize>().ok())).max().unwrap_or(0);
+                        seen.push((cfg_txt, "fail", Some(depth)));
+                    }
+                    _ => {
+                        if stderr.contains("refsolver-budget") || stderr.contains("refsolver-internal") || first == "unknown" {
+                            sh.count("corpus_runs_over_the_backend_effort_bound", 1);
+                        } else {
+                            let loc = stderr.lines().find(|l| l.contains("panicked at")).map(|l| l.split("panicked at ").nth(1).unwrap_or("").split(':').take(2).collect::<Vec<_>>().join(":")).unwrap_or_else(|| "no-panic".into());
+                            sh.violation(format!("C02|corpus|cli|no-verdict|{}", util::short_path(&loc)), format!("{cfg_txt} {name} exited with {:?} and no verdict\nstdout: {}\nstderr: {}", out.status.code(), util::trunc(&stdout, 400), util::trunc(&stderr, 1200)), json!({"file": name}));
+                            unset_env("REFSOLVER_RLIMIT");
+                            return;
+                        }
+                    }
+                }
+            }
+            let _ = std::fs::remove_file(&log);
+        }
+        unset_env("REFSOLVER_RLIMIT");
+        for (cfg_txt, v, d) in &seen {
+            sh.hist("corpus_verdicts", v);
+            if let Some(sd) = sim_bad {
+                if *v == "success" || d.map(|d| d > sd).unwrap_or(false) {
+                    sh.violation(format!("C02|corpus|contradicts-simulation|bmc-says-{v}"), format!("{name}: the reference simulator reached a bad state at step {sd} on a path that satisfies the constraints, but {cfg_txt} says {v} (depth {d:?}) at bound {k}"), json!({"file": name}));
+                    return;
+                }
+            }
+        }
+        if let Some((c0, v0, d0)) = seen.first() {
+            for (c, v, d) in &seen[1..] {
+                if v != v0 || d != d0 {
+                    sh.violation("C02|corpus|configurations-disagree", format!("{name} at bound {k}: [{c0}] says {v0} (first failure at step {d0:?}), [{c}] says {v} (step {d:?})"), json!({"file": name}));
+                    return;
+                }
+            }
+            if seen.len() >= 2 {
+                sh.count("corpus_systems_with_agreeing_configurations", 1);
+                sh.distinct(util::hash_str(&name));
+            }
+            if let Some(d) = d0 {
+                sh.hist("corpus_first_failure_depth", &format!("{d:02}"));
+            }
+        }
+    }
+}
+
 impl Check for C02 {
     fn id(&self) -> &'static str {
         "C02"
     }
     fn work(&self, tier: Tier) -> Vec<WorkItem> {
-        vec![WorkItem { mode: "directed", count: 2 }, WorkItem { mode: "cli", count: tier.pick(64, 4_000) }, WorkItem { mode: "gen", count: std::env::var("VERIF_N").ok().and_then(|s| s.parse().ok()).unwrap_or(tier.pick(240, 24_000)) }]
+        vec![WorkItem { mode: "directed", count: 2 }, WorkItem { mode: "corpus", count: super::c11::corpus_files().len() as u64 }, WorkItem { mode: "cli", count: tier.pick(64, 4_000) }, WorkItem { mode: "gen", count: std::env::var("VERIF_N").ok().and_then(|s| s.parse().ok()).unwrap_or(tier.pick(240, 24_000)) }]
     }
     fn evaluations_counter(&self) -> &'static str {
         "bmc_runs"
     }
     fn rule(&self) -> String {
-        "G2 systems (<= 8 state bits incl. array states, <= 4 input bits, free and initialised states, init chains over earlier states, const states, 0-2 constraints, 1-3 bads incl. constant and duplicate ones, sub-terms shared between init/next/bad/constraint roots) x bound k in {1,2,3,5, d-1, d, d+1} (d = reference depth of the first bad state) x 4 solver personas (refsolver under the names bitwuzla / yices-smt2 / z3 / cvc5: check-sat-assuming vs push/pop emulation, const-array support) x {bads jointly, individually} x {as is, after simplify_expressions}; patronus::mc::bmc talks the real text protocol to the strict reference solver; the verdict is compared with explicit-state reachability R4 and across configurations. distinct_nontrivial = distinct systems with at least 2 reachable states.".into()
+        "G2 systems (<= 8 state bits incl. array states, <= 4 input bits, free and initialised states, init chains over earlier states, const states, 0-2 constraints, 1-3 bads incl. constant and duplicate ones, sub-terms shared between init/next/bad/constraint roots) x bound k in {1,2,3,5, d-1, d, d+1} (d = reference depth of the first bad state) x 4 solver personas (refsolver under the names bitwuzla / yices-smt2 / z3 / cvc5: check-sat-assuming vs push/pop emulation, const-array support) x {bads jointly, individually} x {as is, after simplify_expressions}; patronus::mc::bmc talks the real text protocol to the strict reference solver; the verdict is compared with explicit-state reachability R4 and across configurations. mode corpus: every shipped btor2 design with a bad state (quick: files <= 6 kB, bound 12; thorough: <= 100 kB, bound 30) is checked by the library in two configurations (random profile, jointly as-is / individually simplified) and by the shipped tools/mc binary on the file itself, under a deterministic backend effort bound; all must agree on the verdict and on the step of the first failure, and none may contradict a bad state that constrained random simulation in the reference simulator R3 reached (one-sided independent oracle). distinct_nontrivial = distinct generated systems with at least 2 reachable states + shipped designs judged.".into()
     }
     fn assumptions(&self) -> Vec<String> {
         vec![
@@ -259,6 +460,10 @@ impl Check for C02 {
         }
         if case.mode == "cli" {
             self.cli_case(sh, &mut ctx, &mut rng);
+            return;
+        }
+        if case.mode == "corpus" {
+            self.corpus_case(sh, &mut rng, case.n as usize);
             return;
         }
         let mut cfg = mc_sys_cfg(&mut rng);
@@ -342,5 +547,7 @@ impl Check for C02 {
         m.floor("runs with verdict fail", m.h("verdicts", "fail"), tier.pick(800, 100_000));
         m.floor("runs with verdict success", m.h("verdicts", "success"), tier.pick(800, 100_000));
         m.floor("configurations exercised", m.hist_len("config") as u64, 16);
+        m.floor("shipped designs on which library and tool configurations agreed (verdict and failure depth)", m.c("corpus_systems_with_agreeing_configurations"), tier.pick(40, 60));
+        m.floor("shipped designs where reference simulation itself reached a bad state", m.c("corpus_systems_where_simulation_reached_a_bad_state"), tier.pick(5, 8));
     }
 }
